@@ -251,6 +251,7 @@ pub struct Alphabet {
     pub rewind: Vec<u32>,
     pub proposals: Vec<Req>,
     pub clear_b: bool,
+    pub unlock_all: bool,
 }
 
 pub fn enabled(env: &Env, al: &Alphabet, m: &Model) -> Vec<Op> {
@@ -258,7 +259,12 @@ pub fn enabled(env: &Env, al: &Alphabet, m: &Model) -> Vec<Op> {
     for (o, s, far) in &al.locks {
         ops.push(Op::Lock { owner: *o, set: *s, far: *far });
     }
-    for k in m.locks.keys() {
+    for (k, grp) in &m.locks {
+        // quick alphabet: one representative note (the smallest key) per group of notes locked
+        // together (same owner and expiry); thorough: every note holding a lock row
+        if !al.unlock_all && m.locks.iter().any(|(k2, g2)| g2 == grp && k2 < k) {
+            continue;
+        }
         for o in [0u8, 1] {
             ops.push(Op::Unlock { owner: o, note: *k });
         }
